@@ -136,6 +136,7 @@ func runC15(c *Ctx) {
 		c.R.Floor("C15.append", p.Cfg.Name, n, 90)
 		ruleEndian(c, p, "C15.endian")
 		ruleClones(c, p, "C15.clones")
+		ruleValidationLoops(c, p, "C15.validate")
 		ruleGrowByAppend(c, p, "C15.fresh")
 		ruleReaderSource(c, p, "C15.source")
 	}
@@ -439,4 +440,102 @@ func windowBytes(sl *ssa.Slice) int64 {
 		}
 	}
 	return 0
+}
+
+// ruleValidationLoops: a loop that validates decoded elements cannot be bypassed.
+func ruleValidationLoops(c *Ctx, p *core.Program, rule string) {
+	c.R.Rule(rule, "in every DecodeColumn, a loop that can fail (an element-validation loop: a failure exit inside the loop body) lies on every path from the wire read to a success exit, except behind the `rows == 0` shortcut: a fast path that returns success around the loop accepts element values the other build configuration rejects (and, for Bool, leaves bytes other than 0/1 in memory typed as bool)")
+	cfg := p.Cfg.Name
+	n := 0
+	for _, ct := range columnTypes(p) {
+		fn := methodOf(p, ct, "DecodeColumn")
+		if fn == nil || fn.Blocks == nil || len(fn.Params) < 3 {
+			continue
+		}
+		rows := fn.Params[len(fn.Params)-1]
+		// loop headers with a failing exit in their body
+		var headers []*ssa.BasicBlock
+		for _, b := range fn.Blocks {
+			ret, ok := b.Instrs[len(b.Instrs)-1].(*ssa.Return)
+			if !ok || b.Comment == "recover" {
+				continue
+			}
+			rv := core.ReturnErr(fn, ret)
+			if rv == nil || core.MayBeNilError(rv, 0) {
+				continue
+			}
+			// the failing return is reached from inside a loop: some loop header dominates it and
+			// the branch leading to it can alternatively continue the loop
+			for _, pr := range b.Preds {
+				if h := core.LoopHeader(pr.Instrs[len(pr.Instrs)-1]); h != nil {
+					// validation, not a read: the loop body up to the test performs no wire read
+					headers = append(headers, h)
+				}
+			}
+		}
+		if len(headers) == 0 {
+			continue
+		}
+		rd := readerClass(p)
+		zero := core.CondEdges(fn, true, func(cond ssa.Value) (bool, bool) {
+			bo, ok := cond.(*ssa.BinOp)
+			if !ok || bo.X != ssa.Value(rows) {
+				return false, false
+			}
+			k, okc := core.ConstInt(bo.Y)
+			if !okc || k != 0 {
+				return false, false
+			}
+			switch bo.Op {
+			case token.EQL, token.LEQ:
+				return true, true
+			case token.NEQ, token.GTR:
+				return false, true
+			}
+			return false, false
+		})
+		nth := 0
+		for _, h := range uniqBlocks(headers) {
+			// only loops without wire reads in their body (reads fail on their own account)
+			reads := false
+			for _, b := range fn.Blocks {
+				if !h.Dominates(b) {
+					continue
+				}
+				for _, in := range b.Instrs {
+					if call, ok := in.(ssa.CallInstruction); ok && rd(fn, call) && core.LoopHeader(in) == h {
+						reads = true
+					}
+				}
+			}
+			if reads {
+				continue
+			}
+			n++
+			nth++
+			key := sprintf("%s.DecodeColumn/loop#%d", ct.Obj().Name(), nth)
+			hits := core.ReachAvoiding(core.Entry(fn), func(x ssa.Instruction) bool {
+				ret, ok := x.(*ssa.Return)
+				return ok && x.Block().Comment != "recover" && defaultSuccess(fn, ret)
+			}, func(x ssa.Instruction) bool { return x.Block() == h }, core.WithoutEdges(zero))
+			if len(hits) > 0 {
+				c.R.Bad(rule, key, cfg, p.Pos(hits[0].At.Pos()), "a success exit is reachable without entering the element-validation loop: values the loop would reject are accepted on that path", p.TrailString(hits[0])...)
+			} else {
+				c.R.Ok(rule, key, cfg, p.Pos(h.Instrs[0].Pos()), "every success exit passes the validation loop")
+			}
+		}
+	}
+	c.R.Count("validation loops["+cfg+"]", n)
+}
+
+func uniqBlocks(bs []*ssa.BasicBlock) []*ssa.BasicBlock {
+	seen := map[*ssa.BasicBlock]bool{}
+	var out []*ssa.BasicBlock
+	for _, b := range bs {
+		if !seen[b] {
+			seen[b] = true
+			out = append(out, b)
+		}
+	}
+	return out
 }
